@@ -156,7 +156,7 @@ func (w *World) Resolve(h *sdl.Instance, pt *sdl.Point) *Resolution {
 				if contains(t.Funcs, pt.Name) {
 					cands = append(cands, i.ID)
 				}
-			} else if pt.Name == "SimKind" && t.HasKind && contains(pt.Returns, i.Kind) {
+			} else if pt.Name == "SimKind" && t.HasKind && (contains(pt.Returns, i.Kind) || contains(pt.Returns, "*")) {
 				cands = append(cands, i.ID)
 			}
 		}
